@@ -57,7 +57,7 @@ ALL_SETS = ['i2', 'i3', 's1', 'd2', 'p2']
 REWARDS = [0, 0.5, 1]
 LOG_PROB = {'log': 0.5, 'tiny': 0.01}
 
-STEP_CPU_HORIZON = 5.0          # seconds of CPU time one predict+score+learn step may take (normal: < 1 ms)
+STEP_CPU_HORIZON = 2.0          # seconds of CPU time one predict+score+learn step may take (normal: < 1 ms)
 
 
 def fresh(x):
@@ -119,7 +119,7 @@ def learner_configs(tier):
                            [{'l': 'Fixed', 'pmf': [0.999, 0.001], 'seed': s}, {'l': 'Random', 'seed': s}],
                            [{'l': 'Eps', 'eps': 0.1, 'seed': s}, {'l': 'UCB', 'seed': s}])
     for mode in ('importance', 'off-policy'):
-        for eta in (0.075, 1):
+        for eta in (0.075, 1, 10):
             for T in ('inf', 4):
                 for s in seeds:
                     for bases in base_sets(s):
@@ -178,6 +178,9 @@ def canon(L):
 
 
 # ------------------------------------------------------------------------------------------------ one step on the real learner
+
+HORIZON_MODE = 'step does not return within the horizon'
+
 
 class StepTimeout(BaseException):
     pass
@@ -310,11 +313,11 @@ def run_history(d, hist):
 def checked_step(L, d, op, probe=False):
     """One oracle-checked step under the CPU-time horizon."""
     rec = Rec()
-    signal.setitimer(signal.ITIMER_VIRTUAL, STEP_CPU_HORIZON)
+    signal.setitimer(signal.ITIMER_VIRTUAL, STEP_CPU_HORIZON, 0.25)     # repeating: survives a bare `except:` in the code under test
     try:
         do_step(L, d, op, rec, probe)
     except StepTimeout:
-        rec.v((family(d), 'step does not return within the horizon', ''),
+        rec.v((family(d), HORIZON_MODE, ''),
               f'predict/learn on {op!r} used more than {STEP_CPU_HORIZON}s of CPU time')
     finally:
         signal.setitimer(signal.ITIMER_VIRTUAL, 0)
@@ -376,7 +379,7 @@ class C16(Check):
         'for Corral "the probability with which its policy selects the action" is taken as its own pmf value given the base proposals (sum of p_bar over the proposing base learners), not the marginal over base draws',
         'score of an action outside the offered set, learn of an action outside the offered set, and seeds None are outside the alphabet',
         'the canonical state is every attribute reachable from the learner plus the LCG position of every CobaRandom; unknown attribute types abort the run (exit 2) instead of being ignored',
-        'step horizon: one predict+score+learn step may use 5 s of CPU time (normal: < 1 ms)',
+        'step horizon: one predict+score+learn step may use 2 s of CPU time (normal: < 1 ms); after a step exceeded it the rest of that case is not explored (reported as a cap)',
     ]
     TECHNIQUE = ('explicit-state breadth-first search over (action set, reward, learn mode) histories of one real learner object, replay from '
                  'scratch per transition, merging on a complete canonical state (all attributes + rng positions); invariants checked on every transition')
@@ -466,6 +469,8 @@ class C16(Check):
                 for k, what in rec.violations:
                     acc.violation(final_key(d, h2, k), what, {'learner': d, 'history': [list(o) for o in h2]}, order=(len(h2), acc._cur[0], acc._order))
                     acc._order += 1
+                if any(k[1] == HORIZON_MODE for k, _ in rec.violations):
+                    acc.cap('case abandoned after a step exceeded the CPU horizon'); return
                 if rec.dead: continue
                 c2 = canon(L)
                 if c2 in seen: continue
